@@ -119,49 +119,9 @@ func runC01(c *Ctx) {
 			continue
 		}
 		cc := CC(calls[0])
-		// seconds = float64(duration)/1e9
-		var isSecondsOf func(v, d ssa.Value, depth int) bool
-		isSecondsOf = func(v, d ssa.Value, depth int) bool {
-			if cl, ok := v.(*ssa.Call); ok && MatchCC(&cl.Call, Spec{"time", "Duration", "Seconds"}) && cl.Call.Args[0] == d {
-				return true
-			}
-			// a helper of the package that computes it from the duration it is given (durationSeconds(d))
-			if cl, ok := v.(*ssa.Call); ok && depth < 2 {
-				if sc := cl.Call.StaticCallee(); sc != nil && len(sc.Blocks) > 0 && PkgOf(sc) == PkgOf(fn) {
-					for i, a := range cl.Call.Args {
-						if a != d || i >= len(sc.Params) {
-							continue
-						}
-						n, all := 0, true
-						EachInstr(sc, func(in ssa.Instruction) {
-							if ret, ok := in.(*ssa.Return); ok && len(ret.Results) == 1 {
-								n++
-								if !isSecondsOf(ret.Results[0], sc.Params[i], depth+1) {
-									all = false
-								}
-							}
-						})
-						if n > 0 && all {
-							return true
-						}
-					}
-				}
-			}
-			b, ok := v.(*ssa.BinOp)
-			if !ok || b.Op != token.QUO {
-				return false
-			}
-			cvt, ok := b.X.(*ssa.Convert)
-			if !ok || cvt.X != d || !isFloatType(cvt.Type()) {
-				return false
-			}
-			k, isC := ConstInt(b.Y)
-			return isC && k == 1_000_000_000
-		}
-		isSeconds := func(v ssa.Value) bool { return isSecondsOf(v, ssa.Value(dur), 0) }
-		nArg := cc.Args[1]
-		okN := SliceAny(nArg, isSeconds)
-		c.Check(okN, "O1.6", fk(fn)+":token-budget-from-exact-seconds", calls[0].Pos(), "the token budget n must be computed from float64(duration)/1e9")
+		// (that the token budget and the slope are computed from the exact seconds value is implied by the identities of
+		// O1.8, which read the whole expression; only the uses of the duration parameter are checked here)
+		_ = cc
 		// every use of the duration in arithmetic goes through the exact seconds value or straight to NewDoAtSchedule
 		badUse := ""
 		if rs := dur.Referrers(); rs != nil {
@@ -180,32 +140,6 @@ func runC01(c *Ctx) {
 			}
 		}
 		c.Check(badUse == "", "O1.6", fk(fn)+":duration-only-used-as-exact-float", fn.Pos(), "the duration parameter must only be converted to float or passed on; found: "+badUse)
-		if name == "NewLine" {
-			// slope a = (to-from)/seconds; passed to lineDoAt
-			ld := Calls(fn, Spec{"./core/schedule", "", "lineDoAt"})
-			okA := len(ld) == 1
-			if okA {
-				a := CC(ld[0]).Args[0]
-				b, isB := a.(*ssa.BinOp)
-				okA = isB && b.Op == token.QUO && isSeconds(b.Y)
-				if okA {
-					nb, isNB := b.X.(*ssa.BinOp)
-					okA = isNB && nb.Op == token.SUB && nb.X == ssa.Value(fn.Params[1]) && nb.Y == ssa.Value(fn.Params[0])
-				}
-				c.Check(CC(ld[0]).Args[1] == ssa.Value(fn.Params[0]), "O1.6", fk(fn)+":line-intercept-is-from", ld[0].Pos(), "the line's initial rate b must be `from`")
-			}
-			c.Check(okA, "O1.6", fk(fn)+":line-slope-from-exact-seconds", fn.Pos(), "the slope must be (to - from) / (float64(duration)/1e9)")
-		}
-		if name == "NewConst" {
-			cd := Calls(fn, Spec{"./core/schedule", "", "constDoAt"})
-			c.Check(len(cd) == 1 && DerivesOnly(CC(cd[0]).Args[0], false, func(v ssa.Value) bool {
-				if v == ssa.Value(fn.Params[0]) {
-					return true
-				}
-				k, isC := ConstInt(v)
-				return isC && k == 0
-			}), "O1.6", fk(fn)+":const-rate-is-ops", fn.Pos(), "constDoAt must get the configured ops (clamped at 0)")
-		}
 	}
 	if once := P.Func("core/schedule", "", "NewOnce"); once == nil {
 		c.Anchor("O1.2", "core/schedule.NewOnce")
@@ -283,13 +217,19 @@ func runC01(c *Ctx) {
 	} else {
 		nFin, nTok := 0, 0
 		// (where Next ends with `return s.tokenTime(i)`, the returns of that helper)
-		for _, r := range DelegatedReturns(nx) {
+		for _, vr := range VirtualReturns(nx) {
+			// (r: the results and the place of this way of returning - a merged bare return is taken per incoming edge)
+			r := struct {
+				Results []ssa.Value
+				At      ssa.Instruction
+				ret     *ssa.Return
+			}{vr.Results, vr.At, vr.Ret}
 			if len(r.Results) != 2 {
 				continue
 			}
 			okv, isC := ConstCond(r.Results[1])
 			if !isC {
-				c.Bad("O1.3", fk(nx)+":ok-result-constant-per-branch", r.Pos(), "ok result must be a constant per branch")
+				c.Bad("O1.3", fk(nx)+":ok-result-constant-per-branch", r.ret.Pos(), "ok result must be a constant per branch")
 				continue
 			}
 			// start.Add(...) here, or in a helper of the type that computes the time (operationTime(i), finishTime())
@@ -344,12 +284,12 @@ func runC01(c *Ctx) {
 				}
 			}
 			if off == nil {
-				c.Bad("O1.3", fk(nx)+":time-is-start-plus-offset", r.Pos(), "returned time must be start.Add(...)")
+				c.Bad("O1.3", fk(nx)+":time-is-start-plus-offset", r.ret.Pos(), "returned time must be start.Add(...)")
 				continue
 			}
 			// facts: index >= n ?
 			exhausted, within := false, false
-			for _, f := range CmpFactsAt(r) {
+			for _, f := range CmpFactsAt(r.At) {
 				f = f.Canon()
 				if IsFieldLoad(f.X, "doAtSchedule", "n") && f.Op == token.LEQ { // n <= idx
 					exhausted = true
@@ -360,12 +300,12 @@ func runC01(c *Ctx) {
 			}
 			if !okv {
 				nFin++
-				c.Check(exhausted && IsFieldLoad(off, "doAtSchedule", "duration"), "O1.3", fk(nx)+":exhausted-returns-start-plus-duration", r.Pos(),
+				c.Check(exhausted && IsFieldLoad(off, "doAtSchedule", "duration"), "O1.3", fk(nx)+":exhausted-returns-start-plus-duration", r.ret.Pos(),
 					fmt.Sprintf("the ok=false return must be on the index >= n edge (%v) and return start.Add(duration)", exhausted))
 			} else {
 				nTok++
 				oc, _ := CallOfValue(off)
-				c.Check(within && oc != nil && IsFieldCall(&oc.Call, "doAtSchedule", "doAt"), "O1.3", fk(nx)+":token-returns-start-plus-doAt", r.Pos(),
+				c.Check(within && oc != nil && IsFieldCall(&oc.Call, "doAtSchedule", "doAt"), "O1.3", fk(nx)+":token-returns-start-plus-doAt", r.ret.Pos(),
 					fmt.Sprintf("the ok=true return must be on the index < n edge (%v) and return start.Add(doAt(index))", within))
 			}
 		}
